@@ -6,7 +6,7 @@ CONSTANTS
   NSeg = 2
   Extra = 1
   First = 5
-  Scripts <- Scripts2x32
+  Scripts <- Scripts2x31
   ErrSets <- OneErr
   StepGuard = FALSE
 INVARIANTS InitFirst Consecutive StepLower StepUpper DeleteStops Delivered StuckOnlyAfterStop
